@@ -50,8 +50,16 @@ impl PartialEq for DFA {
             inputs: other_inputs,
             subdfas: _,
         } = other;
+        // Has to agree with `Hash` below, which walks the maps in insertion order.  The equality of
+        // IndexMap/IndexSet ignores the order: two automata listing the same inputs in a different
+        // order (ids are positions!) compared equal and were merged in `DFAInternPool` whenever their
+        // randomly seeded hashes happened to collide.
         self_starting_state == other_starting_state
-            && self_transitions == other_transitions
+            && self_transitions.len() == other_transitions.len()
+            && self_transitions
+                .iter()
+                .zip(other_transitions.iter())
+                .all(|((from1, tos1), (from2, tos2))| from1 == from2 && tos1.iter().eq(tos2.iter()))
             && self_accepting_states == other_accepting_states
             && self_inputs == other_inputs
     }
@@ -196,10 +204,20 @@ impl Inp {
     }
 }
 
-#[derive(Debug, Clone, Default, PartialEq, Eq)]
+#[derive(Debug, Clone, Default)]
 pub struct InpInternPool {
     store: IndexSet<Inp>,
 }
+
+// An `InpId` is a position in the pool: two pools are the same only if they list the same inputs
+// in the same order (which is also what `Hash` below looks at).
+impl PartialEq for InpInternPool {
+    fn eq(&self, other: &Self) -> bool {
+        self.store.iter().eq(other.store.iter())
+    }
+}
+
+impl Eq for InpInternPool {}
 
 impl std::hash::Hash for InpInternPool {
     fn hash<H: std::hash::Hasher>(&self, state: &mut H) {
